@@ -209,7 +209,7 @@ func (e *env) judge(frames []src, out []byte, fail func(sig, detail string)) {
 func main() {
 	xlog.ReplaceGlobal(xlog.New(xlog.NewNopCore()))
 	rep := report.New("C09", "exploration")
-	rep.Rule = "every elementary-stream size from 1 to 3*184+30 bytes (all residues mod 184) for each first-packet shape (key+PCR / non-key x PTS-only / PTS+DTS, video NAL types 1,5,6,7,8,9 and AAC), large sizes around 65535 and 200000, PTS/DTS over {0,1,2^15-1,2^15,2^30-1,2^30,2^32,2^33-1}, and every frame-kind sequence up to the tier length (continuity across frames), through the real packetisers and mpegts.Writer; output checked by an independent ISO 13818-1 demultiplexer + Annex-B/ADTS splitters; distinct = distinct (kind, size, timestamps) or sequences"
+	rep.Rule = "every elementary-stream size from 1 to 3*184+30 bytes (all residues mod 184) for each first-packet shape (key+PCR / non-key x PTS-only / PTS+DTS, video NAL types 1,5,6,7,8,9 and AAC), large sizes around 65535 and 200000, PTS/DTS over {0,1,2^15-1,2^15,2^30-1,2^30,2^32,2^33-1}, every pair of consecutive frame sizes up to the tier bound on one PID and across PIDs, and every frame-kind sequence up to the tier length (continuity across frames), through the real packetisers and mpegts.Writer; output checked by an independent ISO 13818-1 demultiplexer + Annex-B/ADTS splitters; distinct = distinct (kind, size, timestamps) or sequences"
 	rep.Assumptions = []string{"source units of NAL type 7/8/9 may be omitted from the TS (parameter sets are re-inserted on key frames) but, if written, must be valid Annex-B"}
 	e := newEnv()
 	type job struct {
@@ -218,6 +218,9 @@ func main() {
 	}
 	var jobs []job
 	maxSize := 184*3 + 30
+	if rep.Thorough() {
+		maxSize = 184*12 + 30
+	}
 	for _, typ := range []byte{1, 5, 6, 7, 8, 9} {
 		for _, dd := range []int64{0, 3600} {
 			for sz := 1; sz <= maxSize; sz++ {
@@ -246,10 +249,22 @@ func main() {
 		}
 		jobs = append(jobs, job{[]src{aframe(50, 7, d)}, fmt.Sprintf("audio pts=%d", d)})
 	}
+	// consecutive frames of every size pair: stuffing of one frame next to the continuity counter,
+	// PCR and PES header of the next, on the same PID and across PIDs
+	pairMax := 60
+	if rep.Thorough() {
+		pairMax = 760
+	}
+	for s1 := 1; s1 <= pairMax; s1++ {
+		for s2 := 1; s2 <= pairMax; s2++ {
+			jobs = append(jobs, job{[]src{vframe(1, s1, byte(s1), 9000, 9000), vframe(1, s2, byte(s2), 18000+3600, 18000)}, fmt.Sprintf("pair P size=%d, P size=%d", s1, s2)})
+			jobs = append(jobs, job{[]src{vframe(5, s1, byte(s1), 9000, 9000), aframe(s2, byte(s2), 9100), vframe(1, s2, byte(s1), 18000, 18000)}, fmt.Sprintf("pair IDR size=%d, AAC size=%d, P size=%d", s1, s2, s2)})
+		}
+	}
 	// sequences mixing PIDs
 	maxLen := 4
 	if rep.Thorough() {
-		maxLen = 6
+		maxLen = 7
 	}
 	kinds := []func(i int) src{
 		func(i int) src { return vframe(5, 300, byte(i), int64(9000*i+3600), int64(9000*i)) },
